@@ -141,8 +141,28 @@ def f13_instance(tol_split):
     return float(en[-1]), float(np.vdot(v, dense_mpo(H) @ v).real), float(np.linalg.norm(v))
 
 
+def f16_present():
+    """F16: both DMRG drivers on a chain of ONE site (empty sweep loops): reported energies 0, state not optimised"""
+    import pytenet as ptn
+    try:
+        H = ptn.heisenberg_xxz_mpo(1, 1.0, 0.7, 0.3); H.zero_qnumbers()
+        hits = 0
+        for f in (ptn.calculate_ground_state_local_singlesite, ptn.calculate_ground_state_local_twosite):
+            psi = ptn.MPS(H.qd, [[0], [0]], fill=0.0)
+            psi.A[0] = np.array([[[0.6]], [[0.8]]])
+            en = f(H, psi, 2, numiter_lanczos=10)
+            v = dense_mps(psi)
+            e = float(np.vdot(v, dense_mpo(H) @ v).real)
+            hits += bool(abs(en[-1]) < 1e-12 and abs(e - en[-1]) > 1e-3)
+        return hits == 2
+    except Exception:
+        return False
+
+
 def known_findings_present(k):
     """F13: the listed input, replayed on the real code on every run"""
+    if k.get('key') == 'dmrg-one-site-chain':
+        return f16_present()
     if k.get('key') != 'dmrg2-truncation-energy':
         return False
     try:
